@@ -32,8 +32,10 @@ EXPLANATION = (
     "the NF; (b) QUANTILE-TUNE - on the `scale is None` path the stored value is np.quantile(v, 1-level) with v the score output of "
     "the detector's own driver called with the same arguments as in predict except an infinite threshold; PELT raises ValueError; "
     "(c) SCALE-LINEAR - every formula of (a), including the intermediate family, is homogeneous of degree 1 in the scale atom. "
-    "NOT decided: chi2-dependent monotonicity of the intermediate family, np.quantile's order-statistic property, PELT's "
-    "monotonicity in the penalty (a consequence of C02 optimality)."
+    "(d) MONOTONE-PELT - that a larger penalty never yields more changepoints is a theorem about exact minimisers; its structural "
+    "necessary condition, the exactness obligations of C02 (recurrence, index gather, pruning form and pruning delay), is re-run here. "
+    "NOT decided: chi2-dependent monotonicity of the intermediate family, np.quantile's order-statistic property, the monotonicity "
+    "theorem itself."
 )
 ASSUMPTIONS = [
     "Python's ast module and evaluation-order/argument-binding semantics as implemented in skverif/symex.py",
@@ -55,6 +57,7 @@ def check(ctx):
     for pkg, name in (("skchange.change_detectors", "SeededBinarySegmentation"), ("skchange.anomaly_detectors", "CircularBinarySegmentation"), ("skchange.change_detectors", "MovingWindow")):
         ctx.guard("C15.b QUANTILE-TUNE", name, lambda: check_tuning(ctx, pkg, name))
     ctx.guard("C15.b QUANTILE-TUNE", "PELT", lambda: check_pelt_tuning(ctx))
+    ctx.guard("C15.d MONOTONE-PELT", "exactness", lambda: shared_pelt_exactness(ctx))
     ctx.expect_min("C15.a NF-FORMULA", sum(1 for o in ctx.obs if o.rule == "C15.a NF-FORMULA"), 10)
     ctx.expect_min("C15.c SCALE-LINEAR", sum(1 for o in ctx.obs if o.rule == "C15.c SCALE-LINEAR"), 9)
 
@@ -324,6 +327,30 @@ def check_families(ctx):
 
 
 # -------------------------------------------------------------------- tuning
+
+
+def shared_pelt_exactness(ctx):
+    """'A larger penalty never yields more changepoints' is a theorem about EXACT minimisers of the penalised cost (the
+    optimal number of segments is non-increasing in the penalty); an inexact search - pruning applied too early, a wrong
+    recurrence - loses it.  The recurrence and pruning obligations of C02 are its structural necessary condition and are
+    re-run here; the theorem itself is not decided."""
+    from . import c02
+
+    before = len(ctx.obs)
+    mins = dict(ctx.mins)
+    try:
+        c02.check(ctx)
+    except Undecided as u:
+        ctx.undecided("C15.d MONOTONE-PELT", "exactness", "", str(u))
+    ctx.mins = mins
+    kept = []
+    for o in ctx.obs[before:]:
+        if o.status == "UNDECIDED" and o.key == "instance-count":
+            continue
+        if any(r in o.rule for r in ("BELLMAN", "PRUNE-FORM", "PRUNE-DIST", "IDX-GATHER")) or o.status == "UNDECIDED":
+            o.rule = f"C15.d MONOTONE-PELT ({o.rule})"
+            kept.append(o)
+    ctx.obs[before:] = kept
 
 
 def _driver_summary(name):
